@@ -202,7 +202,7 @@ _AS_BUILT = {
          ' As built: r3 ROUND-TRIP evaluated (sets of sets, tuples with sets, negatives, empty sets at every level); the family is evaluated again with SDCompact::unknownCount scaled to 2 and 3 because that constant lies inside the range of real cardinalities (found: a set of exactly that size did not unpack; repaired).',
          'Hostile tables are covered by the structural guards (r2) only. r4 COMPATIBLE decides CheckCompatible on heterogeneous sets (audit finding repaired).'),
  'C17': ('; ' + E4 + ' of Reference::ExtractAll (with the UTF-8 iterator and Substr), Reference::Parse, OutputRefs and ResolveAll on bounded text families; STORED-VALID who-may-store rule',
-         ' As built: r7 write-back, r8 resolve-all, r9 SCAN-EVALUATED (exactly the well-formed @{...} occurrences whatever precedes them), r10 OFFSET-FAITHFUL (offset carried exactly or refused), r11 STORED-VALID (every writer of RefsManager::refs stores only references that passed IsValid()), r12 LEGACY-FIELDS (ExtractMorpho interpreted: only a numeric last field is the legacy index). Six findings repaired.',
+         ' As built: r7 write-back, r8 resolve-all, r9 SCAN-EVALUATED (exactly the well-formed @{...} occurrences whatever precedes them), r10 OFFSET-FAITHFUL (offset carried exactly or refused), r11 STORED-VALID (every writer of RefsManager::refs stores only references that passed IsValid()), r12 LEGACY-FIELDS (ExtractMorpho interpreted: only a numeric last field is the legacy index), r13 NESTED-FOUND (ExtractAll with the real Parse: a marker that encloses another marker is not a reference and the inner one is found), r14 RAW-CACHE-COUPLED (whoever assigns the raw text of a ManagedText rewrites its cached resolution on every path); the clause that resolving is a function of the raw texts, loops of term references included, is decided by C10 r11 (Thesaurus update interpreted). Nine findings repaired.',
          'An ill-formed marker, closed or not, is plain text: the well-formed occurrences inside it count (leftmost-outermost). Which field texts are well-formed is the parser\'s verdict (r1/r6/r10/r12), not re-derived by the scan rule.'),
  'C18': ('; SELF-REFERENCE rule over analyser records',
          ' As built: lexer reset generalised per entry point, statics reset on every path, r4 SELF-REFERENCE (the parser driver points at the parser\'s own state: found defaulted move operations, repaired).',
